@@ -1146,6 +1146,11 @@ def check(program, rep):
     # walk starts at (C11-R5)
     from . import C11
     rep.guard("C11-R5", C11.r5_walk_vector, program, rep)
+    # ... and the walk itself lands on the chips the links lead to, wrapped
+    # per axis, and the search rings are the chips at that distance (C11-R2):
+    # a walk that lands elsewhere leaves the tree disconnected
+    from ..constfold import Folder as _Folder
+    rep.guard("C11-R2", C11.r2_walk, program, _Folder(program), rep)
     # arguments handed to package functions under the wrong name / same-
     # named optional parameters not passed on (NAMELINK, DESIGN.md 9.13)
     from .. import namelink as _nl
